@@ -506,4 +506,60 @@ theorem isotope_eq_one_atom_compound (t : Tbl ℝ) (x : Atom) (r : NRec ℝ) (ρ
   · unfold isotopeDensity; exact mul_ne_zero hρ (div_ne_zero hm hmEl)
   · unfold isotopeDensity; field_simp
 
+/-! ## `energy_dependent_init`: the table is wavelength-ordered -/
+
+theorem energyFactor_pos : (0 : ℝ) < PtGen.ENERGY_FACTOR := by
+  unfold PtGen.ENERGY_FACTOR PtGen.plancks_constant PtGen.electron_volt PtGen.neutron_mass
+    PtGen.atomic_mass_constant
+  positivity
+
+/-- a larger energy is a shorter wavelength -/
+theorem neutronWavelength_strictAnti (e₁ e₂ : ℝ) (h1 : 0 < e₁) (h : e₁ < e₂) :
+    neutronWavelength e₂ < neutronWavelength e₁ := by
+  unfold neutronWavelength
+  rw [sqrt_def, sqrt_def]
+  apply Real.sqrt_lt_sqrt (div_nonneg energyFactor_pos.le (h1.trans h).le)
+  exact div_lt_div_of_pos_left energyFactor_pos h1 h
+
+/-- rows tabulated by strictly increasing positive energy become a grid that is strictly
+    increasing in wavelength (energies are converted and both arrays reversed), which is what the
+    interpolation theorems assume -/
+theorem edNodes_increasing (rows : List (ℝ × ℝ × ℝ))
+    (hpos : ∀ r ∈ rows, 0 < r.1) (hinc : (rows.map (·.1)).Pairwise (· < ·)) :
+    Increasing (edNodes rows) := by
+  unfold Increasing edNodes
+  rw [List.map_reverse, List.pairwise_reverse, List.map_map]
+  induction rows with
+  | nil => simp
+  | cons r rest ih =>
+    simp only [List.map_cons, List.pairwise_cons] at hinc ⊢
+    refine ⟨?_, ih (fun x hx => hpos x (by simp [hx])) hinc.2⟩
+    intro y hy
+    obtain ⟨x, hx, rfl⟩ := List.mem_map.mp hy
+    simp only [Function.comp, lit]
+    have hr : 0 < r.1 := hpos r (by simp)
+    have hlt : r.1 < x.1 := hinc.1 x.1 (List.mem_map_of_mem hx)
+    apply neutronWavelength_strictAnti
+    · push_cast; positivity
+    · push_cast; nlinarith
+
+/-- the values travel with their energies: node `i` from the end is row `i` -/
+theorem edNodes_values (rows : List (ℝ × ℝ × ℝ)) :
+    (edNodes rows).map (·.2) = (rows.map fun r => (r.2.1, r.2.2)).reverse := by
+  unfold edNodes
+  rw [List.map_reverse, List.map_map]
+  rfl
+
+/-- the wavelength is positive for a positive energy -/
+theorem neutronWavelength_pos (e : ℝ) (he : 0 < e) : 0 < neutronWavelength e := by
+  unfold neutronWavelength
+  exact Real.sqrt_pos.mpr (div_pos energyFactor_pos he)
+
+/-- the `energy=` path: the documented equations at the wavelength `λ = √(ENERGY_FACTOR/E)` -/
+theorem scattering_eq_spec_energy (t : Tbl ℝ) (atoms : List (Atom × ℝ)) (ρ e : ℝ)
+    (hd : AllData t atoms) (h : Physical t atoms ρ (neutronWavelength e))
+    (him : ImNonpos t (neutronWavelength e) atoms) :
+    neutronScatteringE t atoms ρ e = .ok (Spec.scattering t atoms ρ (neutronWavelength e)) :=
+  scattering_eq_spec t atoms ρ (neutronWavelength e) hd h him
+
 end PtProofs.Neutron
